@@ -33,13 +33,20 @@ FILES = {   # stem -> (sampling rate, seconds, seed)
     "B500": (500.0, 170, 2),
     "C100": (100.0, 250, 3),
     "D050": (50.0, 200, 4),
+    # two legitimate high sampling rates whose time steps differ by 5.9e-6 s (< any 1e-5 tolerance);
+    # only used with the short-window preprocessing settings
+    "E4000": (4000.0, 6, 5),
+    "F4096": (4096.0, 6, 6),
 }
+HI = ("E4000", "F4096")
 FCS = [0.5, 0.8, 1.3, 2.1, 3.4, 5.5, 8.9, 14.4]
 PRE = {
     "pre_plain": dict(window_length_in_seconds=80.0, detrend="linear",
                       filter_corner_frequencies_in_hz=[None, None], orient_to_degrees_from_north=0.0),
     "pre_filt": dict(window_length_in_seconds=80.0, detrend="constant",
                      filter_corner_frequencies_in_hz=[0.3, 20.0], orient_to_degrees_from_north=30.0),
+    "pre_short": dict(window_length_in_seconds=2.5, detrend="linear",
+                      filter_corner_frequencies_in_hz=[None, None], orient_to_degrees_from_north=0.0),
 }
 PROC = {
     "trad": ("HvsrTraditionalProcessingSettings", dict(method_to_combine_horizontals="geometric_mean")),
@@ -49,6 +56,8 @@ PROC = {
     "trad_fftn": ("HvsrTraditionalProcessingSettings", dict(method_to_combine_horizontals="squared_average",
                                                             fft_settings={"n": 1024})),
 }
+
+DISTS_MIXED = [["normal", "lognormal"], ["lognormal", "normal"], ["normal", "normal"]]   # (mc, fn)
 
 _DATA = None        # directory with inputs, settings and references (set by warm())
 _CONFORMANCE = []   # filled by warm(), reported by finalize()
@@ -107,12 +116,18 @@ def _in_child(fn):
     return pid
 
 
-def _reference_job(d, stem, pre, proc):
+def _dist_tag(dist):
+    return "" if not dist or list(dist) == ["lognormal", "lognormal"] else f"__{dist[0]}-{dist[1]}"
+
+
+def _reference_job(d, stem, pre, proc, dist=None):
     """read -> preprocess -> process -> write for one file alone, fresh settings."""
+    dist = list(dist or ["lognormal", "lognormal"])
+
     def job():
         import hvsrpy
         from hvsrpy.object_io import read_settings_object_from_file
-        out = os.path.join(d, "ref", f"{pre}__{proc}")
+        out = os.path.join(d, "ref", f"{pre}__{proc}{_dist_tag(dist)}")
         os.makedirs(out, exist_ok=True)
         ps = read_settings_object_from_file(os.path.join(d, pre + ".json"))
         pr = read_settings_object_from_file(os.path.join(d, proc + ".json"))
@@ -121,7 +136,7 @@ def _reference_job(d, stem, pre, proc):
         recs = hvsrpy.preprocess(recs, ps)
         hv = hvsrpy.process(recs, pr)
         tmp = os.path.join(out, f"{stem}.{os.getpid()}.tmp")
-        hvsrpy.write_hvsr_object_to_file(hv, tmp, distribution_mc="lognormal", distribution_fn="lognormal")
+        hvsrpy.write_hvsr_object_to_file(hv, tmp, distribution_mc=dist[0], distribution_fn=dist[1])
         os.replace(tmp, os.path.join(out, stem + ".csv"))
     return job
 
@@ -135,7 +150,7 @@ def _combos(tier):
 def _stems(tier):
     # quick: A100 and D050 share the padded FFT length but not the sampling rate (state keyed by the
     # FFT length alone), B500 needs the longer FFT; thorough adds C100 (same rate as A100, other length)
-    return ["A100", "B500", "D050"] if tier == "quick" else list(FILES)
+    return ["A100", "B500", "D050"] if tier == "quick" else [f for f in FILES if f not in HI]
 
 
 def warm(tier="quick"):
@@ -143,6 +158,11 @@ def warm(tier="quick"):
     fresh forked process), warm the JIT, then run the real-pool conformance."""
     global _DATA
     d = _data_dir()
+    base = os.path.dirname(d)
+    if os.path.isdir(base):
+        for other in os.listdir(base):          # input sets of earlier versions of this check
+            if os.path.join(base, other) != d:
+                shutil.rmtree(os.path.join(base, other), ignore_errors=True)
     # references depend on /repo's code: always recomputed (inputs are kept).
     shutil.rmtree(os.path.join(d, "ref"), ignore_errors=True)
     _make_inputs(d)
@@ -153,9 +173,11 @@ def warm(tier="quick"):
     f = np.fft.rfftfreq(16, 0.01)
     SMOOTHING_OPERATORS["konno_and_ohmachi"](f, np.ones((2, len(f))), np.array([5.0]), 40)
     pids = []
-    for (pre, proc) in _combos(tier):
-        for stem in _stems(tier):
-            pids.append(_in_child(_reference_job(d, stem, pre, proc)))
+    jobs = [(stem, pre, proc, None) for (pre, proc) in _combos(tier) for stem in _stems(tier)]
+    jobs += [(stem, "pre_short", "trad", None) for stem in HI]
+    jobs += [(stem, "pre_plain", proc, dist) for stem in ("A100",) for proc in ("trad", "azi") for dist in DISTS_MIXED]
+    for (stem, pre, proc, dist) in jobs:
+            pids.append(_in_child(_reference_job(d, stem, pre, proc, dist)))
             if len(pids) >= 12:
                 os.waitpid(pids.pop(0), 0)
     for p in pids:
@@ -166,8 +188,10 @@ def warm(tier="quick"):
 # ---------------------------------------------------------------------------
 # running the CLI
 
-def _cli_args(d, files, nproc, pre, proc):
+def _cli_args(d, files, nproc, pre, proc, dist=None):
     args = [os.path.join(d, s + ".mseed") for s in files]
+    if dist:
+        args += ["--distribution_mc", dist[0], "--distribution_fn", dist[1]]
     args += ["--preprocessing_settings_file", os.path.join(d, pre + ".json"),
              "--processing_settings_file", os.path.join(d, proc + ".json"), "--no_figure"]
     if nproc is not None:
@@ -191,7 +215,7 @@ def _invoke(args, pool_cls, cpu=None):
 def _probe(d, root):
     vpool.VirtualPool.mode = "probe"
     try:
-        _invoke(_cli_args(d, root["files"], root["nproc"], root["pre"], root["proc"]),
+        _invoke(_cli_args(d, root["files"], root["nproc"], root["pre"], root["proc"], root.get("dist")),
                 vpool.VirtualPool, cpu=root.get("cpu"))
     except vpool.ProbeDone:
         pass
@@ -221,7 +245,7 @@ def _run_schedule(d, root, assignment):
         old = sys.stdout
         sys.stdout = devnull
         try:
-            _invoke(_cli_args(d, root["files"], root["nproc"], root["pre"], root["proc"]),
+            _invoke(_cli_args(d, root["files"], root["nproc"], root["pre"], root["proc"], root.get("dist")),
                     vpool.VirtualPool, cpu=root.get("cpu"))
         except Exception as e:      # noqa: BLE001
             err = f"{type(e).__name__}: {e}"[-1500:]
@@ -240,8 +264,8 @@ def _run_schedule(d, root, assignment):
     return outs, by_chunk, err
 
 
-def _ref_bytes(d, stem, pre, proc):
-    p = os.path.join(d, "ref", f"{pre}__{proc}", stem + ".csv")
+def _ref_bytes(d, stem, pre, proc, dist=None):
+    p = os.path.join(d, "ref", f"{pre}__{proc}{_dist_tag(dist)}", stem + ".csv")
     with open(p, "rb") as f:
         return f.read()
 
@@ -263,6 +287,8 @@ def _classify(root, chunks, stem):
             if not before:
                 return "first-in-chunk"
             fs = FILES[stem][0]
+            if stem in HI:
+                return "after-other-file-in-same-chunk"
             longer = [b for b in before if FILES[b][0] * 80 + 1 > 32768 >= fs * 80 + 1]
             return "after-file-needing-longer-fft-in-same-chunk" if longer else "after-other-file-in-same-chunk"
     return "not-in-any-chunk"
@@ -306,7 +332,7 @@ def run_root(root, ctx, tier):
             got = outs.get(s + ".csv")
             if got is None:
                 continue
-            ref = _ref_bytes(d, s, root["pre"], root["proc"])
+            ref = _ref_bytes(d, s, root["pre"], root["proc"], root.get("dist"))
             ctx.count("files_compared")
             ctx.outcome((s, root["pre"], root["proc"], hashlib.sha256(got).hexdigest()[:12]))
             if got != ref:
@@ -315,7 +341,8 @@ def run_root(root, ctx, tier):
                               detail=dict(sched, file=s, first_difference=_first_diff(ref, got)),
                               explanation=f"{s}.csv written by the batch differs from the pipeline run for "
                                           f"that file alone ({cls})")
-    ctx.nontrivial_case((tuple(root["files"]), root["nproc"], root.get("cpu"), root["pre"], root["proc"]))
+    ctx.nontrivial_case((tuple(root["files"]), root["nproc"], root.get("cpu"), root["pre"], root["proc"],
+                         tuple(root.get("dist") or ())))
 
 
 # ---------------------------------------------------------------------------
@@ -463,6 +490,15 @@ def roots(tier, seed):
                     sel = [c for c in combos if c == ("pre_plain", "trad") or "B500" in batch]
                 for (pre, proc) in sel:
                     out.append(dict(files=list(batch), nproc=nproc, cpu=cpu, pre=pre, proc=proc))
+    # two high sampling rates whose time steps are closer than 1e-5 s, sharing one padded FFT length
+    for L in (1, 2):
+        for batch in itertools.permutations(HI, L):
+            for nproc in ((1, 2) if tier == "quick" else (1, 2, 3)):
+                out.append(dict(files=list(batch), nproc=nproc, cpu=None, pre="pre_short", proc="trad"))
+    # --distribution_mc / --distribution_fn with different values
+    for dist in DISTS_MIXED:
+        for proc in ("trad", "azi"):
+            out.append(dict(files=["A100"], nproc=1, cpu=None, pre="pre_plain", proc=proc, dist=dist))
     return out
 
 
